@@ -408,7 +408,65 @@ func Deterministic(n, r0, r1, r2, few int) {
 		rt.EnvSet("maporder", "")
 		rt.Assert("output-deterministic", got == ref)
 	}
+	if !rt.Symbolic() {
+		// native replay (race detector on): two generations of independent trees at the same time
+		for round := 0; round < 6; round++ {
+			done := make(chan bool, 2)
+			for k := 0; k < 2; k++ {
+				go func() {
+					tk, _ := buildTree(n, codes, few)
+					tk.Strict = strict
+					var out bytes.Buffer
+					_ = tk.Compile("out.go", []string{"peg"}, &out)
+					done <- true
+				}()
+			}
+			<-done
+			<-done
+		}
+	}
 	rt.Assert("analysis-tasks-write-disjoint", rt.FootprintsDisjoint(100, 101))
 	rt.Assert("independent-generations-write-disjoint", rt.FootprintsDisjoint(1, 2))
 	rt.Reach("done")
+}
+
+// ---- A-COMPILE (assumption of the C18 harness): Compile returns nil only if its output reached
+// the destination ----
+
+type failingWriter struct {
+	fail   bool
+	failed bool
+	wrote  bool
+}
+
+type writeError struct{}
+
+func (writeError) Error() string { return "write: no space left on device" }
+
+func (w *failingWriter) Write(p []byte) (int, error) {
+	if w.fail {
+		w.failed = true
+		return 0, writeError{}
+	}
+	w.wrote = true
+	return len(p), nil
+}
+
+// CompileWrites: a clean one-rule grammar is generated into a writer that may reject writes;
+// a nil error from Compile means the parser was written and no write failed.
+func CompileWrites(r0 int) {
+	t, _ := buildTree(1, []int{r0, 0, 0}, 1)
+	t.Strict = rt.Bool("strict")
+	w := &failingWriter{fail: rt.Bool("writefails")}
+	var err error
+	_ = rt.CaptureStderr(func() {
+		err = t.Compile("out.go", []string{"peg"}, w)
+	})
+	rt.ObserveBool("nil", err == nil)
+	if err == nil {
+		rt.Assert("compile-nil-implies-output-written", w.wrote && !w.failed)
+		rt.Reach("written")
+	} else {
+		rt.Reach("error")
+	}
 }
